@@ -75,5 +75,46 @@ PROPS.update({
         "not_decided": ["inheritance, count/range expansion, distributions, class lookup: contracts not finished in this commit"],
     },
 })
+EXEC_TASKS = ["Market._execution", "Market._execute_orders", "Market.remain_executable_orders", "OrderBook.change_order_volume", "OrderBook._remove", "Order.compare"]
+PROPS.update({
+    "C01": {
+        "level": "proof",
+        "level_text": "pairing, one common price, price within both limits and the price rule are postconditions of Market._execution, proved with an inductive invariant of the matching walk for books of any size",
+        "level_note": COMMON_NOTE + "; prices are only compared and copied, so A-REAL is not needed here; rounds that start with market orders on both tops are covered only by the bounded stand-in",
+        "tasks": EXEC_TASKS,
+        "bounded": [{"name": "rounds starting with market orders on top of both sides", "replayer": "matching", "bound": "4000 (quick) / 60000 (thorough) seeded random histories of <= 14 events, prices 8..12, volumes 1..3, ttl in {None,1,2}", "timeout": 1500}],
+        "not_decided": ["rounds whose two best orders are both market orders: bounded only"],
+    },
+    "C02": {
+        "level": "proof",
+        "level_text": "strict-total-order lemmas of Order comparisons from the real code; heap contracts; filled orders form a priority prefix (postcondition E6 of Market._execution); BookInv preserved by every book mutator",
+        "level_note": COMMON_NOTE,
+        "tasks": EXEC_TASKS + ["OrderBook.add", "OrderBook.cancel", "OrderBook._check_expired_orders", "Market._add_order"],
+        "not_decided": [],
+    },
+    "C03": {
+        "level": "proof",
+        "level_text": "cleared-book postcondition E7, every raise in the round unreachable, termination variant -- under MarketInv, running, and not both best orders market orders; that complement by bounded enumeration",
+        "level_note": COMMON_NOTE,
+        "tasks": EXEC_TASKS,
+        "bounded": [{"name": "rounds starting with market orders on top of both sides", "replayer": "matching", "bound": "4000 (quick) / 60000 (thorough) seeded random histories of <= 14 events, prices 8..12, volumes 1..3, ttl in {None,1,2}", "timeout": 1500}],
+        "not_decided": ["rounds whose two best orders are both market orders: bounded only"],
+    },
+    "C04": {
+        "level": "proof",
+        "level_text": "order life-cycle: acceptance guards, volume accounting per fill, cancel, expiry boundary (exactly when the clock passes placed_at + ttl), BookInv/MarketInv preserved by every writer",
+        "level_note": COMMON_NOTE + "; user agents/events use only the public API (DESIGN 3.5)",
+        "tasks": ["Market._add_order", "Market._cancel_order", "Market._execute_orders", "Market._execution", "Market._update_time", "OrderBook.add", "OrderBook._remove", "OrderBook.cancel",
+                  "OrderBook.change_order_volume", "OrderBook._check_expired_orders", "OrderBook._set_time", "Order.compare"],
+        "not_decided": ["owner check in the runner and Order.__init__ validation: contracts not finished in this commit"],
+    },
+    "C10": {
+        "level": "proof",
+        "level_text": "one record per accepted order, cancel, fill and expiry with the event's values: trace contracts of the market functions",
+        "level_note": COMMON_NOTE + "; user Logger.process_* overrides are outside",
+        "tasks": ["Market._add_order", "Market._cancel_order", "Market._execute_orders", "Market._execution", "Market._update_time", "OrderBook._check_expired_orders"],
+        "not_decided": ["flush points in the run loop and Logger dispatch: contracts not finished in this commit"],
+    },
+})
 for k in PROPS:
     NOT_CLAIMED.pop(k, None)
